@@ -158,6 +158,28 @@ pub fn run(ctx: &Ctx) {
             }
         }
     }
+    // Descriptors whose own bytes look like a delimiter: ending in the end tag 79 00, starting with it,
+    // or carrying another descriptor's tag -- alone, last in a template, and followed by another one.
+    {
+        let lookalikes = vec![
+            Res::Memory32Fixed { rw: true, base: 0x1000, len: 0x0079_0000 },
+            Res::Memory32Fixed { rw: false, base: 0x0079_0079, len: 0x0079_7900 },
+            Res::Interrupt { consumer: true, edge: false, active_low: false, shared: false, number: 0x0079_0000 },
+            Res::Interrupt { consumer: false, edge: true, active_low: true, shared: true, number: 0x7900_0079 },
+            Res::Io { min: 0x0079, max: 0x7900, align: 0x79, len: 0 },
+            Res::Io { min: 0x3f8, max: 0x3f8, align: 0x79, len: 0x00 },
+            Res::AddrSpace { width: 16, ty: AsType::Io, min: 0x0079, max: 0x0079 + 0x78, translation: None },
+            Res::AddrSpace { width: 32, ty: AsType::Memory(1, true), min: 0x1000, max: 0x1000 + 0x0079_0000 - 1, translation: None },
+            Res::AddrSpace { width: 64, ty: AsType::Memory(0, false), min: 0x47, max: 0x47 + 0x0079_0000_0000_0000 - 1, translation: Some(0x7900) },
+            Res::Register(crate::tables::types::GasV { pci: false, space: 0x0a, width: 0x79, offset: 0x79, access: 0, addr: 0x0079_0000_0000_0000, dev: 0, func: 0, reg: 0 }),
+        ];
+        for l in &lookalikes {
+            dir.push(vec![l.clone()]);
+            dir.push(vec![Res::Io { min: 1, max: 2, align: 1, len: 1 }, l.clone()]);
+            dir.push(vec![l.clone(), Res::Memory32Fixed { rw: true, base: 1, len: 2 }]);
+            dir.push(vec![l.clone(), l.clone()]);
+        }
+    }
     // every template payload size
     let sizes: Vec<u32> = if ctx.quick() { super::c06::boundary_sizes(false) } else { (0..=4200).collect() };
     for n in sizes {
